@@ -30,6 +30,15 @@ def p3_lemmas(tier, wf_only=False, ndjson=(0, 1), ks=None):
                         bound="%d structural tokens, gaps %s, message <= %d bytes; strings without escapes (escapes: lemmas S); parseNumber "
                               "= its summary (lemma P2)" % (K, gaps, (8 if wset == 0 else 5) * (K - 1) + 1),
                         expect_reach=["P3.returned"]))
+    if tier != "quick" and ks is None:
+        # cross-check of the composition: the same harness with the REAL parseNumber (merged) instead of its summary
+        for K in (2, 3):
+            ls.append(Lemma("P3.machine.K%d.json.copy.realnum" % K, "verifHarness_P3_Machine", FP3,
+                            splits=[{"K": K - 2, "wset": 0, "ndjson": 0, "copy": 1}], split_depth=("auto" if K >= 3 else 0),
+                            intr=Stage2Intrinsics, opts={"merge_funcs": [PN]},
+                            desc="as P3.machine.K%d with the real parseNumber (state-merged, strconv as contracts) on both the implementation "
+                                 "and the reference side instead of the uninterpreted number oracle" % K,
+                            bound="%d structural tokens, message <= %d bytes" % (K, 8 * (K - 1) + 1), expect_reach=["P3.returned"]))
     return ls
 
 
